@@ -52,6 +52,12 @@ def run_check(pid, tier, seed):
         # our own Lean does not build / audit: a failure of the machinery, never a violation
         print(f'MACHINERY-FAILURE property={pid}: ' + '\n'.join(lean['problems'])[:4000])
         return 2
+    recheck = None
+    if tier == 'thorough':
+        ok, recheck = leanproj.recheck(pid)
+        if not ok:
+            print(f'MACHINERY-FAILURE property={pid}: {recheck}')
+            return 2
     res = Result()
     try:
         mod.run(tier, seed, res, lean)
@@ -89,6 +95,8 @@ def run_check(pid, tier, seed):
                                   f'{len(lean["theorems"])} theorems)')
     cov.setdefault('trusted_base', TRUSTED_BASE + getattr(mod, 'TRUSTED', []))
     cov['theorems'] = lean['theorems']
+    if recheck:
+        cov['leanchecker'] = recheck.strip()
     cov['lean_sources_digest'] = lean.get('digest')
     cov['known_findings_matched'] = sorted({e['id'] for _, e in known})
     ev = {
